@@ -236,8 +236,10 @@ def _full_compare(snap, membership=True):
 def directed_cases(rng, n):
     """operations that fail part-way: nothing that existed before may change (fields, id, hash, and — except for
     detach / replace / deserialization — registry membership)"""
+    _round = -1
     import gc
     for _ in range(n):
+        _round += 1
         gc.collect()
         NODE_REGISTRY.clear()
         # (1) replace() rejected by the class' own validation AFTER the new node was registered
@@ -315,7 +317,7 @@ def directed_cases(rng, n):
         # (4b) a transform whose visit methods hand back an EQUAL shallow copy (dataclasses.replace without changes) of
         #      the node they were given, at the root / below it: the pre-existing children shared by original and copy
         #      keep their fields, ids and registry entries
-        for deep in (False, True):
+        for deep in ((False, True) if _round < 6 else ()):
             for shape in ("un-root", "tup-below", "bin-below"):
                 gc.collect()
                 NODE_REGISTRY.clear()
@@ -338,6 +340,44 @@ def directed_cases(rng, n):
                            f"{zoo.show(top)}: visit methods return dataclasses.replace(node) (deep={deep})",
                            oracle_fail=f5, sig="frame|directed|transform-equal-copy")
                 del a, b, top, snap5
+        # (4c) a payload whose id is held by a LIVE node that differs from the payload in a non-comparable property
+        #      (the payload is older: the node was replaced keeping its id; or the payload was edited): reading it back
+        #      returns / re-uses the live node and changes none of its fields -- alone and as a child of a tree
+        for fmt in (("dict", "json", "msgpack", "yaml") if _round < 3 else ()):
+            for how in ("older-payload", "edited-payload"):
+                for nested in (False, True):
+                    gc.collect()
+                    NODE_REGISTRY.clear()
+                    leaf = zoo.Leaf(v=rng.randint(0, 9), tag="a")
+                    top = zoo.Un(leaf) if nested else leaf
+                    try:
+                        if how == "older-payload":
+                            payload = {"dict": top.as_dict, "json": top.to_json, "msgpack": top.to_msgpck, "yaml": top.to_yaml}[fmt]()
+                            live_leaf = leaf.replace(tag="b")       # same digest: takes over the id
+                            live = zoo.Un(live_leaf) if nested else live_leaf
+                            if nested:
+                                top.detach_self()
+                        else:
+                            d = top.as_dict()
+                            (d["arg"] if nested else d)["tag"] = "edited"
+                            live_leaf, live = leaf, top
+                            if fmt == "dict":
+                                payload = d
+                            else:
+                                # the same edit through the other formats: write the edited dict with the format's own writer
+                                import orjson as _oj, msgpack as _mp, yaml as _y
+                                payload = {"json": lambda: _oj.dumps(d).decode(), "msgpack": lambda: _mp.packb(d),
+                                           "yaml": lambda: _y.safe_dump(d)}[fmt]()
+                        snap6 = _full_snapshot([live_leaf] + ([live] if nested else []))
+                        cls = type(top)
+                        {"dict": cls.as_obj, "json": cls.from_json, "msgpack": cls.from_msgpck, "yaml": cls.from_yaml}[fmt](payload)
+                        f6 = _full_compare(snap6)
+                    except Exception as e:  # noqa
+                        f6 = None if how == "edited-payload" and fmt != "dict" else f"raised {type(e).__name__}: {e}"[:200]
+                    yield Case("directed:deser-live-noncompare", None, None, True,
+                               f"Leaf(tag) {how} format={fmt} nested={nested}: as_obj of a payload whose id is live",
+                               oracle_fail=f6, sig="frame|directed|deser-live-noncompare")
+                    del leaf, top, live_leaf, live
         # (5) free-form property values (annotation Any) holding nested containers: no serializer may touch them
         import copy
         from props.c14 import C14Holder
